@@ -585,16 +585,21 @@ type sidxRefData struct {
 }
 
 func writeSidxAt(dst []byte, version uint8, refID, timescale uint32, ept uint64, refs []sidxRefData) {
+	writeSidxFO(dst, version, refID, timescale, ept, 0, refs)
+}
+
+// writeSidxFO writes a sidx with the given first_offset.
+func writeSidxFO(dst []byte, version uint8, refID, timescale uint32, ept, firstOffset uint64, refs []sidxRefData) {
 	var w sink
 	p := w.openFull("sidx", version, 0)
 	w.u32(refID)
 	w.u32(timescale)
 	if version == 0 {
 		w.u32(uint32(ept))
-		w.u32(0)
+		w.u32(uint32(firstOffset))
 	} else {
 		w.u64(ept)
-		w.u64(0)
+		w.u64(firstOffset)
 	}
 	w.u16(0)
 	w.u16(uint16(len(refs)))
@@ -701,6 +706,12 @@ func Build(tracks []Track, lay FileLayout) (init []byte, segments [][]byte, trut
 		w.zeros(sidxSize(topSidxVer, len(lay.Segments)))
 		bi := b.top("sidx", topSidxAt, w.pos()-topSidxAt)
 		truth.TopSidx = &bi
+		if lay.TopSidxGap >= 8 {
+			p := w.open("free")
+			w.zeros(lay.TopSidxGap - 8)
+			w.close(p)
+			b.top("free", p, w.pos()-p)
+		}
 	}
 	initEnd := w.pos()
 
@@ -782,7 +793,11 @@ func Build(tracks []Track, lay FileLayout) (init []byte, segments [][]byte, trut
 		if sidxVersion(topEPT) != topSidxVer && len(lay.Segments) > 0 {
 			return nil, nil, nil, fmt.Errorf("fragbuild: internal: top sidx version changed")
 		}
-		writeSidxAt(w.b[topSidxAt:], topSidxVer, tracks[0].ID, tracks[0].Timescale, topEPT, topRefs)
+		gap := uint64(0)
+		if lay.TopSidxGap >= 8 {
+			gap = uint64(lay.TopSidxGap)
+		}
+		writeSidxFO(w.b[topSidxAt:], topSidxVer, tracks[0].ID, tracks[0].Timescale, topEPT, gap, topRefs)
 	}
 	mediaEnd := w.pos()
 
